@@ -20,14 +20,18 @@ CONSTANTS ModeSet,    \* subset of Modes
 VARIABLE st
 
 PolsDefault == {DefaultPol}
-PolsSample  == {Pol(h, a) : h \in HashPols, a \in {"all", "unique"}}
-PolsAll     == {Pol(h, a) : h \in HashPols, a \in ArrPols}
+PolsSample  == {Pol(h, a, "unique") : h \in HashPols, a \in {"all", "unique"}}
+PolsAll     == {Pol(h, a, "unique") : h \in HashPols, a \in ArrPols}
+PolsSeq     == {Pol("deep", a, "unique") : a \in ArrPols}        \* root-level Arrays: only --arrays matters
+PolsSet     == {Pol("deep", "all", sp) : sp \in SetPols}         \* root-level Sets: only --sets matters
+PolsRoot    == PolsSeq \cup PolsSet
+PolsEvery   == {Pol(h, a, sp) : h \in HashPols, a \in ArrPols, sp \in SetPols}
 
 LensSet == UNION {[1..nf -> 1..MaxLen] : nf \in NFilesSet}
 FilesOf(lens) == [f \in 1..Len(lens) |-> [p \in 1..lens[f] |-> SumTo(lens, f - 1) + p]]
 
 Init == \E mode \in ModeSet, pol \in PolSet, lens \in LensSet :
-          \E kinds \in [1..SumTo(lens, Len(lens)) -> KindSet] :
+          \E kinds \in {k \in [1..SumTo(lens, Len(lens)) -> KindSet] : SameFamily(k)} :
             st = MInit(mode, pol, FilesOf(lens), kinds, CopyRhs)
 
 Accept(e) == LET n == MStep(st, e) IN n.pc # "REJECT" /\ st' = n
@@ -74,7 +78,7 @@ I_Deterministic ==
   st.pc # "DONE" =>
     /\ \A e \in Candidates : MStep(st, e).pc # "REJECT" => SameEvent(e, NextEvent(st))
     /\ \E e \in Candidates : MStep(st, e).pc # "REJECT"
-    /\ \A pol \in PolsAll \ {st.pol} :
+    /\ \A pol \in PolsEvery \ {st.pol} :
          NextEvent(st).kind \in {"CondenseLhs", "CondenseRhs", "Across", "Matrix"}
            => MStep(st, [NextEvent(st) EXCEPT !.pol = pol]).pc = "REJECT"
 
@@ -88,10 +92,10 @@ FrameStep ==
 Frame == [][FrameStep]_st
 
 (* ---- emission of finished runs as replay cases ---- *)
-JDoc(c) == [nul |-> c.nul, keys |-> c.keys, shared |-> c.shared, lst |-> c.lst]
+JDoc(c) == [nul |-> c.nul, root |-> c.root, keys |-> c.keys, shared |-> c.shared, lst |-> c.lst]
 Emit ==
   (EmitCases /\ st.pc = "DONE") =>
-    CSVWrite("%1$s", <<ToJson([mode |-> st.mode, hashes |-> st.pol.hashes, arrays |-> st.pol.arrays,
+    CSVWrite("%1$s", <<ToJson([mode |-> st.mode, hashes |-> st.pol.hashes, arrays |-> st.pol.arrays, sets |-> st.pol.sets,
                                files |-> st.files, kinds |-> st.kinds, out |-> st.out, n |-> st.n,
                                exp |-> [p \in 1..Len(st.out) |-> JDoc(Content(st.out[p], st.kinds, st.pol))]])>>,
              IOEnv.CASES_OUT)
